@@ -1,0 +1,96 @@
+//! Verification hooks (cargo feature `verif`). Compiled only with `--features verif`.
+//!
+//! H1: a thread-local output sink plus a crate-local `print!` shadow, so that
+//!     everything sent through the `display!` channel can be captured per thread.
+//!     Falls through to `std::print!` when no sink is installed.
+//! H2: a thread-local statement budget / call-depth limit consulted by the
+//!     evaluator, so arbitrary generated programs terminate.
+//! H3: read access to the parsed AST (see `ApLang::<Parsed>::verif_ast`).
+
+use std::cell::{Cell, RefCell};
+
+thread_local! {
+    pub static SINK: RefCell<Option<String>> = const { RefCell::new(None) };
+    pub static BUDGET: Cell<Option<u64>> = const { Cell::new(None) };
+    pub static DEPTH: Cell<u64> = const { Cell::new(0) };
+    pub static MAX_DEPTH: Cell<u64> = const { Cell::new(u64::MAX) };
+}
+
+pub const BUDGET_MESSAGE: &str = "verif: budget exhausted";
+
+/// install an empty sink on this thread
+pub fn sink_install() {
+    SINK.with(|s| *s.borrow_mut() = Some(String::new()));
+}
+
+/// remove the sink of this thread and return what it captured
+pub fn sink_take() -> Option<String> {
+    SINK.with(|s| s.borrow_mut().take())
+}
+
+pub fn sink_write(text: std::fmt::Arguments) {
+    let captured = SINK.with(|s| {
+        if let Some(buf) = s.borrow_mut().as_mut() {
+            use std::fmt::Write;
+            let _ = buf.write_fmt(text);
+            true
+        } else {
+            false
+        }
+    });
+    if !captured {
+        std::print!("{}", text);
+    }
+}
+
+/// crate-local shadow of `print!`: `display!` expands to `print!`, which
+/// resolves to this macro inside the crate when the feature is on.
+macro_rules! print {
+    ($($tee:tt)*) => {
+        $crate::verif::sink_write(format_args!($($tee)*))
+    };
+}
+
+pub fn set_budget(statements: Option<u64>, max_depth: u64) {
+    BUDGET.with(|b| b.set(statements));
+    DEPTH.with(|d| d.set(0));
+    MAX_DEPTH.with(|d| d.set(max_depth));
+}
+
+fn exhausted() -> crate::interpreter::errors::RuntimeError {
+    crate::interpreter::errors::RuntimeError {
+        named_source: miette::NamedSource::new("", std::sync::Arc::from("")),
+        span: (0..0).into(),
+        message: BUDGET_MESSAGE.to_string(),
+        help: String::new(),
+        label: String::new(),
+    }
+}
+
+/// one unit of statement budget
+pub fn tick() -> Result<(), crate::interpreter::errors::RuntimeError> {
+    BUDGET.with(|b| match b.get() {
+        None => Ok(()),
+        Some(0) => Err(exhausted()),
+        Some(n) => {
+            b.set(Some(n - 1));
+            Ok(())
+        }
+    })
+}
+
+pub fn enter_call() -> Result<(), crate::interpreter::errors::RuntimeError> {
+    let depth = DEPTH.with(|d| {
+        d.set(d.get() + 1);
+        d.get()
+    });
+    if depth > MAX_DEPTH.with(|d| d.get()) {
+        DEPTH.with(|d| d.set(d.get() - 1));
+        return Err(exhausted());
+    }
+    Ok(())
+}
+
+pub fn leave_call() {
+    DEPTH.with(|d| d.set(d.get().saturating_sub(1)));
+}
